@@ -7,7 +7,6 @@ use clvmr::allocator::{Allocator, NodePtr};
 use clvmr::chia_dialect::ClvmFlags;
 use clvmr::serde::{ObjectCache, intern_tree, parse_triples, tree_hash_from_stream, treehash};
 use clvmr::sha_tree_op::op_sha256_tree;
-use clvmr::treehash::tree_hash_costed;
 use serde_json::json;
 use std::io::Cursor;
 
@@ -28,14 +27,20 @@ pub fn check(a: &mut Allocator, n: NodePtr, t: &T, canon: &str, acc: &mut Acc) {
             }
             Err(e) => bad(&format!("op_sha256_tree error {e}"), vec![]),
         }
-        match tree_hash_costed(a, n, u64::MAX, flags) {
-            Ok(r) => {
-                let got = a.atom(r.1).as_ref().to_vec();
-                if got != rh {
-                    bad("tree_hash_costed", got);
+        // the same operator through the dialect's dispatcher (opcode 63)
+        {
+            use clvmr::dialect::Dialect;
+            let d = clvmr::chia_dialect::ChiaDialect::new(flags | ClvmFlags::ENABLE_SHA256_TREE);
+            let opn = a.new_atom(&[63]).unwrap();
+            match d.op(a, opn, args, u64::MAX, clvmr::dialect::OperatorSet::Default) {
+                Ok(r) => {
+                    let got = a.atom(r.1).as_ref().to_vec();
+                    if got != rh {
+                        bad("opcode 63 through ChiaDialect::op", got);
+                    }
                 }
+                Err(e) => bad(&format!("opcode 63 through ChiaDialect::op error {e}"), vec![]),
             }
-            Err(e) => bad(&format!("tree_hash_costed error {e}"), vec![]),
         }
     }
     let mut oc = ObjectCache::new(treehash);
@@ -125,7 +130,7 @@ pub fn run(ctx: &Ctx) -> Report {
     rep.states = rep.evaluations;
     rep.transitions = rep.evaluations * 8;
     rep.traces = rep.evaluations;
-    rep.rule = format!("every tree of TREES({},A6), TREES({}, integers 0..40) and TREES({},A24) in sharing modes x atom representations (inline/heap/view), plus doubling; eight hash computations (op_sha256_tree and tree_hash_costed under both cost models, ObjectCache treehash, InternedTree::tree_hash, tree_hash_from_stream (also as the second object on one cursor), parse_triples) compared with sha256(1||atom)/sha256(2||l||r) computed by the independent SHA-256. The python wheel's sha256_treehash is compared by the python leg. Every case is non-trivial (a hash is computed and compared).", ctx.pick(4, 5), ctx.pick(3, 4), ctx.pick(2, 3));
+    rep.rule = format!("every tree of TREES({},A6), TREES({}, integers 0..40) and TREES({},A24) in sharing modes x atom representations (inline/heap/view), plus doubling; eight hash computations (op_sha256_tree directly and as opcode 63 through ChiaDialect::op, under both cost models, ObjectCache treehash, InternedTree::tree_hash, tree_hash_from_stream (also as the second object on one cursor), parse_triples) compared with sha256(1||atom)/sha256(2||l||r) computed by the independent SHA-256. The python wheel's sha256_treehash is compared by the python leg. Every case is non-trivial (a hash is computed and compared).", ctx.pick(4, 5), ctx.pick(3, 4), ctx.pick(2, 3));
     rep.trusted_base.push("harness/src/refsha.rs (constants derived from primes, self-tested)".into());
     rep
 }
